@@ -242,7 +242,11 @@ def gen_lens(ch, feats, nsurf=None, harsh=False, max_surf=12):
             o.setdefault('rx', ch.rounded(ch.uniform(-0.02, 0.02), 3))
             o.setdefault('ry', ch.rounded(ch.uniform(-0.02, 0.02), 3))
     # ---- image
-    ops.append({'op': 'add_surface', 'index': nsurf + 1})
+    img = {'op': 'add_surface', 'index': nsurf + 1}
+    if 'aperture' in feats and ch.chance(0.25):
+        # detector outline / field stop on the image surface
+        img['aperture'] = [ch.rounded(ch.uniform(0.5, 4.0) * epd, 4), 0]
+    ops.append(img)
     # ---- aperture
     if 'na' in feats and finite_obj:
         ops.append({'op': 'set_aperture', 'type': 'objectNA',
